@@ -269,6 +269,8 @@ var kindDocs = []string{
 	`123`, `-1`, `0`, `1.5`, `1e3`, `-0`, `"abc"`, `""`, `"0"`, `"-1"`, `{}`, `[]`, `[1]`, `["0"]`, `{"a":1}`, `{"0":"0"}`,
 	`true`, `false`, `null`, `"1"`, `"\"0\""`, ` "0" `, `"0x10"`, `"00"`, `"+1"`, `"1_"`, `"0:"`, `":"`, `"::"`, `"-"`, `"_"`,
 	`"0:00:Anycast(1,0)"`, `"0:00:Anycast(,)"`, `"0:00:Anycast()"`, `"b5ee9c72"`, `{"SumType":"Unknown"}`, `{"SumType":"Unknown","Value":5}`,
+	// bags of cells as text: no cell and no root, one cell and no root, one root, the same root twice
+	`"b5ee9c72010100000000"`, `"b5ee9c720101010000020000"`, `"b5ee9c72010101010002000000"`, `"b5ee9c7201010102000200000000"`,
 	`{"SumType":"nope","Value":{}}`, `{"SumType":"TextComment","Value":[]}`, `{"SumType":"Excess","OpCode":"x","Value":{}}`, `{"OpCode":-1}`,
 }
 
